@@ -96,6 +96,29 @@ PROPS = {
                       'explored to fixpoint for every capacity 1..16; UBSan turns signed overflow into a failing case',
         'level_note': 'value alphabet and deviation kinds are finite and listed; windows above 5 are covered by scripted runs, not by full state search',
     },
+    'C18': {
+        'sources': ['src/diagnostics/CheckupReliability.cpp', 'src/diagnostics/Diagnostic.cpp',
+                    'src/diagnostics/DiagnosticReport.cpp', 'src/diagnostics/DiagnosticStatus.cpp'],
+        'harness': 'c18_checkups.cpp',
+        'flavour': 'asan',
+        'level': 'model_checking',
+        'engine': 'sequence',
+        'rule': 'L: full lattice check-up kind x target x epsilon x value (each threshold, its two nextafter neighbours, '
+                '+-1/16, far values; double/float/int; fresh and reused object), all 64 status triples, all status lists '
+                'up to length 8 and length-20 lists with <=2 deviations, all pairs/triples of a 6-report catalogue. '
+                'S: every sequence of evaluate(v)/timeout() to the stated depth on one object (history replayed on a fresh '
+                'object), report vs model after every step. states = distinct observable report states + initial, '
+                'transitions = operations executed in S. non-trivial = value on a threshold (L), mixed list, second or '
+                'later operation of a sequence (S).',
+        'assumptions': ['thresholds and values are dyadic so that the oracle comparison is exact in long double'],
+        'tiers': {'quick': {'deadline': 300}, 'thorough': {'deadline': 3000, 'case_timeout': 600}},
+        'technique': 'exhaustive enumeration of operation sequences on the real check-up objects up to a depth, plus exhaustive input lattices for thresholds, status algebra, lists and report concatenation, against a reference model',
+        'level_text': 'every evaluate/timeout sequence up to depth 5 (thorough 7) on each check-up kind is executed on the '
+                      'real object and compared with a model after every step; threshold inclusivity is decided on the '
+                      'threshold itself and one ulp on either side; the status algebra is checked on all triples and on '
+                      'all lists up to length 8',
+        'level_note': 'finite alphabets as listed; lists longer than 8 only with <=2 deviations from a constant list',
+    },
 }
 
 ENGINES = [
